@@ -66,6 +66,12 @@ pub enum SrcKind {
     FileRange,
     /// `HookedInput` over a perturbing `SimReader` (short reads, `Interrupted`)
     Sim,
+    /// `InputFile` over a whole file from which the caller already read a few bytes (sniffing a
+    /// magic number) before handing it over; only used with hints that do not depend on the
+    /// stream position (No, Detect)
+    FilePeeked,
+    /// `InputFile::new_range(file, origin, None)`: from an offset to the end of the file
+    FileRangeToEnd,
 }
 
 #[derive(Clone, Copy, Debug, PartialEq, Eq, Hash)]
@@ -492,6 +498,25 @@ pub fn make_input(
                 before as u64,
                 Some(spec.bytes.len() as u64),
             )?)
+        }
+        SrcKind::FilePeeked => {
+            let p = scratch.join(format!("inp{idx}.bin"));
+            std::fs::write(&p, spec.bytes.as_ref())?;
+            let mut f = InputFile::open(&p)?;
+            let mut rng = Rng::derive(aux_seed, "filepeek", idx as u64);
+            let mut head = vec![0u8; rng.range(1, 9) as usize];
+            let _ = f.read(&mut head)?;
+            Box::new(f)
+        }
+        SrcKind::FileRangeToEnd => {
+            let p = scratch.join(format!("ine{idx}.bin"));
+            let mut rng = Rng::derive(aux_seed, "filerange-end", idx as u64);
+            let before = rng.range(1, 1000) as usize;
+            let mut f = std::fs::File::create(&p)?;
+            f.write_all(&vec![0xEE; before])?;
+            f.write_all(spec.bytes.as_ref())?;
+            drop(f);
+            Box::new(InputFile::new_range(std::fs::File::open(&p)?, before as u64, None)?)
         }
         SrcKind::Sim => {
             let r = SimReader::new(
